@@ -139,9 +139,19 @@ def _lb_cases(tier):
             out.append({'kind': kind, 'bs': bs, 'p': p})
     return out
 
-@obligation(P, 'lastblock/post', cls='L', funcs=['crysp.padding.SHApadding.lastblock', 'crysp.padding.MDpadding.lastblock', 'crysp.bits.pack'],
+def _lb_quick(tier):
+    out = []
+    for kind, bs in (('SHA', 512), ('SHA', 1024), ('MD', 512)):
+        bl = bs // 8; ws = bl // 8
+        for p in sorted({0, 1, 2, bl // 2, bl - ws - 2, bl - ws - 1, bl - ws, bl - ws + 1, bl - 1, bl}): out.append({'kind': kind, 'bs': bs, 'p': p})
+    return out
+@obligation(P, 'lastblock/boundary', cls='B', funcs=['crysp.padding.SHApadding.lastblock', 'crysp.padding.MDpadding.lastblock', 'crysp.bits.pack'], tiers=('quick',),
+            cases=_lb_quick, bound='tail lengths at the padding-spill boundary and block ends (quick tier); the thorough tier proves every tail length (class L)')
+def _(c): return _lastblock(c)
+@obligation(P, 'lastblock/post', cls='L', funcs=['crysp.padding.SHApadding.lastblock', 'crysp.padding.MDpadding.lastblock', 'crysp.bits.pack'], tiers=('thorough',),
             cases=_lb_cases, note='every tail length 0..blocklen x every bit residue; earlier-bits counter symbolic in [0,2^130]')
-def _(c):
+def _(c): return _lastblock(c)
+def _lastblock(c):
     kind, bs, p = c.case('kind'), c.case('bs'), c.case('p')
     ws = bs // 16
     little = kind == 'MD'
